@@ -83,6 +83,10 @@ pub struct EntrySpec {
     /// bit 3 is set and a descriptor follows (some producers set bit 3 on every entry)
     #[serde(default)]
     pub desc_mode: u8,
+    /// method 93 only: the payload is this many concatenated Zstandard frames (0/1 = one frame) - the format
+    /// allows it, chunking / parallel compressors and flush-per-frame writers emit it
+    #[serde(default)]
+    pub zstd_frames: u8,
 }
 
 impl EntrySpec {
@@ -112,6 +116,7 @@ impl EntrySpec {
             gap_before: vec![],
             flags_extra: 0,
             desc_mode: 0,
+            zstd_frames: 0,
         }
     }
     pub fn encrypted(&self) -> bool {
@@ -269,6 +274,14 @@ pub fn build(spec: &ArchiveSpec) -> Result<Built, String> {
         let usize_ = plain.len() as u64;
         let compressed = match &e.raw_payload {
             Some(p) => p.expand(),
+            None if e.method == 93 && e.zstd_frames > 1 && plain.len() >= e.zstd_frames as usize => {
+                let k = e.zstd_frames as usize;
+                let mut out = Vec::new();
+                for j in 0..k {
+                    out.extend_from_slice(&codec::compress(93, e.level, &plain[j * plain.len() / k..(j + 1) * plain.len() / k])?);
+                }
+                out
+            }
             None => codec::compress(e.method, e.level, &plain)?,
         };
         let mut flags = e.flags_extra;
